@@ -179,13 +179,11 @@ class _CheckingJacobian(DictionaryJacobian):
                     subjac['shape'] = subjac['val'].shape
 
                 elif directional:
-                    shape = self._subjacs_info[key]['val'].shape
-                    if shape[-1] != 1:
-                        self._subjacs_info[key] = meta = self._subjacs_info[key].copy()
-                        if len(shape) > 1:
-                            meta['val'] = np.atleast_2d(meta['val'][:, 0]).T
-                        else:
-                            meta['val'] = np.atleast_1d(meta['val'])
+                    # A directional derivative is one dense column whatever sparsity was declared
+                    # for the partial (and cannot violate that sparsity).
+                    self._subjacs_info[key] = meta = SUBJAC_META_DEFAULTS.copy()
+                    meta['val'] = np.zeros((nrows, 1))
+                    meta['shape'] = meta['val'].shape
 
     def set_col(self, system, icol, column):
         """
